@@ -99,6 +99,7 @@ type Sim struct {
 	Interleaved  bool // >=2 tasks were parked simultaneously at some point
 	fakeElapsed  time.Duration
 	nextBcast    int
+	driverActive bool
 	// KeyAlias shortens scheduling-point keys (e.g. peer ids -> party names).
 	KeyAlias   func(string) string
 	buggify    func(site string) bool
@@ -197,7 +198,9 @@ func (s *Sim) ArmFraction(pct int, allow []string) {
 // Yield is a scheduling point: if the site is armed the calling goroutine parks
 // until the driver releases it. Must not be called with a plain mutex held.
 func (s *Sim) Yield(site, key string) {
-	if s == nil || s.armed == nil || !s.armed(site) {
+	// the driver goroutine itself never parks (it may call into the system under test
+	// from oracles); system goroutines only run while the driver is blocked.
+	if s == nil || s.armed == nil || s.driverActive || !s.armed(site) {
 		return
 	}
 	if s.KeyAlias != nil {
@@ -281,8 +284,22 @@ func (s *Sim) collect() []Action {
 	return acts
 }
 
+func (s *Sim) wait() {
+	s.driverActive = false
+	synctest.Wait()
+	s.driverActive = true
+}
+
+func (s *Sim) sleep(d time.Duration) {
+	s.driverActive = false
+	time.Sleep(d)
+	synctest.Wait()
+	s.driverActive = true
+}
+
 // runBody executes the run inside the bubble.
 func (s *Sim) runBody() {
+	s.driverActive = true
 	s.Start = time.Now()
 	s.RunSalt = uint64(s.Tape.Draw(1<<30, "salt"))
 	s.World.Setup(s)
@@ -293,7 +310,7 @@ func (s *Sim) runBody() {
 	s.ChaosSteps = chaos
 	s.Phase = PhaseChaos
 	for s.Step = 0; s.Step < chaos; s.Step++ {
-		synctest.Wait()
+		s.wait()
 		if s.Failed() {
 			break
 		}
@@ -321,7 +338,7 @@ func (s *Sim) runBody() {
 			if d >= time.Minute {
 				s.Count("fault:clock-jump")
 			}
-			time.Sleep(d)
+			s.sleep(d)
 			continue
 		}
 		a := acts[i]
@@ -347,7 +364,7 @@ func (s *Sim) stabilise() {
 	idleSpent := time.Duration(0)
 	end := s.Step + s.Cfg.MaxStableSteps
 	for ; s.Step < end; s.Step++ {
-		synctest.Wait()
+		s.wait()
 		if s.Failed() {
 			return
 		}
@@ -377,7 +394,7 @@ func (s *Sim) stabilise() {
 				return
 			}
 			s.Logf("idle-tick %v", idleTick)
-			time.Sleep(idleTick)
+			s.sleep(idleTick)
 			idleSpent += idleTick
 			if idleTick < 10*time.Minute {
 				idleTick *= 4
